@@ -418,6 +418,11 @@ func (s *Lexer) getNextToken() (*Token, error) {
 			buf.WriteRune(ch)
 			current_state = SBLOCKCOMMENT
 		} else if current_state == SCOMMENTSTART {
+			if ch == '\n' {
+				// an empty line comment ends at its own line end, it does not swallow the next line
+				s.unread_last()
+				break
+			}
 			buf.WriteRune(ch)
 			current_state = SCOMMENT
 		} else if ch == '(' && current_state == SSTART {
